@@ -57,7 +57,7 @@ def main(argv):
             with open(path) as fh:
                 pid = json.load(fh)["property"]
             same = (recorded.get("signature") in (None, v.signature)
-                    and recorded.get("op_index") in (None, v.op_index))
+                    and recorded.get("op_index") in (None, -1, v.op_index))
             print(("REPRODUCED " if same else "DIFFERENT ") + v.signature)
             print(f"VIOLATION property={pid} replay={path}")
             return 1
